@@ -34,6 +34,9 @@ pub struct OpaqueErrorSource(Box<dyn core::error::Error + Send + Sync + 'static>
 // `Range<Idx>: Clone` clones both ends (std's derived impl).
 pub assume_specification<Idx: Clone>[<Range<Idx> as Clone>::clone](r: &Range<Idx>) -> (res: Range<Idx>)
     ensures cloned(r.start, res.start), cloned(r.end, res.end);
+// `bool::then_some` (std): Some(t) when the receiver is true.
+pub assume_specification<T>[bool::then_some](b: bool, t: T) -> (r: Option<T>)
+    ensures r == (if b { Some(t) } else { None::<T> });
 // Rendering the opaque source delegates to the boxed std error's Display (trusted, std).
 impl core::fmt::Display for OpaqueErrorSource {
     #[verifier::external_body]
